@@ -431,6 +431,7 @@ func (e *expression) Value(ctx *hcl.EvalContext) (cty.Value, hcl.Diagnostics) {
 		var diags hcl.Diagnostics
 		attrs := map[string]cty.Value{}
 		attrRanges := map[string]hcl.Range{}
+		var marks []cty.ValueMarks
 		known := true
 		for _, jsonAttr := range v.Attrs {
 			// In this one context we allow keys to contain interpolation
@@ -471,6 +472,10 @@ func (e *expression) Value(ctx *hcl.EvalContext) (cty.Value, hcl.Diagnostics) {
 				})
 				continue
 			}
+			// The key's marks can't be kept on the key itself, so (as in the
+			// native syntax) they are applied to the object as a whole.
+			name, nameMarks := name.Unmark()
+			marks = append(marks, nameMarks)
 			if !name.IsKnown() {
 				// This is a bit of a weird case, since our usual rules require
 				// us to tolerate unknowns and just represent the result as
@@ -485,10 +490,15 @@ func (e *expression) Value(ctx *hcl.EvalContext) (cty.Value, hcl.Diagnostics) {
 			}
 			nameStr := name.AsString()
 			if _, defined := attrs[nameStr]; defined {
+				detail := fmt.Sprintf("An attribute named %q was already defined at %s.", nameStr, attrRanges[nameStr])
+				if len(nameMarks) != 0 {
+					// Don't disclose the content of a marked key.
+					detail = fmt.Sprintf("An attribute with the same name was already defined at %s.", attrRanges[nameStr])
+				}
 				diags = append(diags, &hcl.Diagnostic{
 					Severity:    hcl.DiagError,
 					Summary:     "Duplicate object attribute",
-					Detail:      fmt.Sprintf("An attribute named %q was already defined at %s.", nameStr, attrRanges[nameStr]),
+					Detail:      detail,
 					Subject:     &jsonAttr.NameRange,
 					Expression:  e,
 					EvalContext: ctx,
@@ -501,9 +511,9 @@ func (e *expression) Value(ctx *hcl.EvalContext) (cty.Value, hcl.Diagnostics) {
 		if !known {
 			// We encountered an unknown key somewhere along the way, so
 			// we can't know what our type will eventually be.
-			return cty.DynamicVal, diags
+			return cty.DynamicVal.WithMarks(marks...), diags
 		}
-		return cty.ObjectVal(attrs), diags
+		return cty.ObjectVal(attrs).WithMarks(marks...), diags
 	case *nullVal:
 		return cty.NullVal(cty.DynamicPseudoType), nil
 	default:
